@@ -144,9 +144,13 @@ func admCmd(a []string) string {
 			r.returned = true
 			wantReturned++
 			mu.Unlock()
-			if f[2] == "1" {
+			switch f[2] {
+			case "1":
 				r.release <- nil
-			} else {
+			case "2":
+				// a transfer that fails on its own with an error wrapping context.Canceled (an aborted dial or stream operation)
+				r.release <- fmt.Errorf("transfer aborted: %w", context.Canceled)
+			default:
 				r.release <- errors.New("stub failure")
 			}
 		case "t":
